@@ -8,8 +8,14 @@ VERIF_MAX_REPORT=1; VERIF_MINIMISE_S=10; export VERIF_MAX_REPORT VERIF_MINIMISE_
 for d in seeded/${1:-}*/; do
   id=$(basename "$d")
   [ -f "$d/meta.json" ] || continue
-  prop=$(/venv/bin/python -c "import json,sys; print(json.load(open('$d/meta.json'))['caught_by_checks'][0])")
-  out=$(./tools_seeded.sh "$d" "$prop" 2>&1)
+  prop=$(/venv/bin/python -c "import json,sys; print((json.load(open('$d/meta.json'))['caught_by_checks'] or ['-'])[0])")
+  if [ "$prop" = "-" ]; then echo "OPEN-GAP $id: recorded as not caught by any check"; continue; fi
+  tier=$(/venv/bin/python -c "import json; print(json.load(open('$d/meta.json')).get('tier', 'quick'))")
+  if [ "$tier" = "thorough" ]; then     # detected by the thorough tier only: bounded batch
+    out=$(VERIF_SEEDED_TIER=thorough VERIF_BUDGET_S=${VERIF_BUDGET_S:-300} ./tools_seeded.sh "$d" "$prop" 2>&1)
+  else
+    out=$(./tools_seeded.sh "$d" "$prop" 2>&1)
+  fi
   if echo "$out" | grep -q "^VIOLATION property=$prop"; then
     echo "CAUGHT $id by $prop: $(echo "$out" | grep -m1 'oracle=' | cut -c1-160)"
   else
